@@ -1,7 +1,8 @@
 /-
 C03 — closed solution paths are well formed: the structural part, proved for the model
 `ClipperVerif/Model/CleanUp.lean` of `IsValidClosedPath`, `CleanCollinear` and `BuildPath64`
-(clipper.engine.cpp:436-453, 1525-1560, 2892-2928), with `FixSelfIntersects` as a parameter `fix`.
+(clipper.engine.cpp:436-453, 1525-1560, 2892-2928), with `FixSelfIntersects` as a parameter `fix`
+(instantiated and discharged in `Props/C03Split.lean`).
 
 Vocabulary (defined in `ClipperVerif/Lemmas/CleanUp.lean`):
 * `LinPairs Q l`, `LinTriples P l`: `Q` / `P` holds for all linearly consecutive pairs / triples of `l`
@@ -227,11 +228,12 @@ theorem buildPath_rejects_short (ring : Ring) (rev : Bool) (h : ring.length < 3)
 example : buildPath64 [⟨0,0⟩,⟨5,0⟩] true false = none := by decide
 
 /-
-Full statement of the structural part of C03 (not provable here, because `FixSelfIntersects` is a parameter):
+Full statement of the structural part of C03:
   for the real `FixSelfIntersects`, `solutionPath pc rev FixSelfIntersects ring = some (some p)` implies
   `p.length ≥ 3 ∧ CycNoDup p`.
-Proved: the same under the hypothesis `FixOk fix` on the parameter; missing: `FixOk` for a model of
-`FixSelfIntersects`/`DoSplitOp` (clipper.engine.cpp:1562-1681).
+Here: the same under the hypothesis `FixOk fix` on the parameter.  `FixOk` is proved for the model of
+`FixSelfIntersects`/`DoSplitOp` (clipper.engine.cpp:1566-1685) in `Props/C03Split.lean` (`fixOk_fixMain`), which also
+states the hypothesis-free corollaries `C03Split.solutionPath_shape` and `C03Split.buildPaths_shape`.
 -/
 /-- Structural part of C03 relative to `fix`: if `FixSelfIntersects` does not create equal cyclic neighbours
 (`FixOk`), every closed path that `BuildPaths64` emits for an outrec has at least three vertices, no two
